@@ -62,6 +62,8 @@ def main(argv):
             p = os.path.join(sd, name, "patch.diff")
             if os.path.isfile(p):
                 meta = json.load(open(os.path.join(sd, name, "meta.json")))
+                if meta.get("superseded_by"):
+                    continue    # a later fix made the library robust against this change
                 props = meta.get("check_with") or [meta.get("breaks_property", name[:3])]
                 jobs.append(("seeded", name, props, p))
     if want_reverts:
